@@ -10,6 +10,7 @@ import (
 	"fmt"
 	"io"
 	"os"
+	"runtime"
 	"sort"
 	"strings"
 	"sync"
@@ -219,6 +220,8 @@ type Op struct {
 	D    string   `json:"d,omitempty"`
 	// Chunks: for wstream, how the content is cut (sizes); for rstream the read buffer size
 	Chunk int `json:"chunk,omitempty"`
+	// Yield: for wstream, yield the processor between two chunks (concurrent drivers)
+	Yield bool `json:"-"`
 }
 
 func (o Op) String() string {
@@ -280,6 +283,11 @@ func Exec(fs FS, op Op, d *Dict, h *Handles) (res Res) {
 			}
 			if h != nil {
 				h.In = append(h.In, part)
+			} else {
+				Scribble(part) // the caller reuses its buffer once Write has returned
+			}
+			if op.Yield {
+				runtime.Gosched() // concurrent drivers: let another goroutine in between two chunks
 			}
 		}
 		cerr := w.Close()
